@@ -196,6 +196,78 @@ theorem backends_agree_reads (cfg : Cfg) (ops : List Op) (nl : Node LState) (nn 
     rw [this, cn]; exact hn
   rw [legacy_read_correct ops nl hl hwf n hnl q hq, new_read_correct cfg ops nn hnw hwf n hnn q hq, cl, cn]
 
+/-- ATTEMPTED operations (both backends): in a history of attempts, those that fail — a block
+`Update` rejects, a `Simulate`, a commit that is lost, a `RevertHead` that fails — leave the node as
+it was (`runL`), so after any such history every view by number still answers from the ACCEPTED
+chain `nd.chain`. (The model has no way to write around the batch: that part is the harness'
+discarded-operations check.) -/
+theorem reads_after_attempts (cfg : Cfg) (ops : List Op) (hwf : OpsWF ops)
+    (n : Nat) (q : Query) (hq : q.ordinary) :
+    (n < (runL (newBackend cfg) (Node.init (newBackend cfg)) ops).blocks.length →
+      (runL (newBackend cfg) (Node.init (newBackend cfg)) ops).read (newBackend cfg) (.num n) q =
+        some ((absAt (runL (newBackend cfg) (Node.init (newBackend cfg)) ops).chain n).read q)) ∧
+    (n < (runL legacyBackend (Node.init legacyBackend) ops).blocks.length →
+      (runL legacyBackend (Node.init legacyBackend) ops).read legacyBackend (.num n) q =
+        some ((absAt (runL legacyBackend (Node.init legacyBackend) ops).chain n).read q)) := by
+  constructor
+  · intro hn
+    have hinv := runL_invariant (newBackend cfg) (NInv cfg)
+      (fun ch s s' d hI hd hu => ninv_store cfg ch s s' d hI hd hu)
+      (fun d rest s s' hI hr => ninv_revert cfg d rest s s' hI hr)
+      ops (Node.init (newBackend cfg)) (ninv_init cfg) hwf
+    simp only [Node.read, Node.resolve, hn, if_true]
+    exact congrArg some (ninv_histRead cfg _ _ hinv n q hq)
+  · intro hn
+    have hinv := runL_invariant legacyBackend LInv
+      (fun ch s s' d hI hd hu => linv_store ch s s' d hI hd hu)
+      (fun d rest s s' hI hr => linv_revert d rest s s' hI hr)
+      ops (Node.init legacyBackend) linv_init hwf
+    simp only [Node.read, Node.resolve, hn, if_true]
+    exact congrArg some (linv_histRead _ _ hinv n q hq)
+
+/-- HELD readers (both backends): a historical reader is its block number `k` (juno's
+`stateHistory{blockNum, state}` over the live database). Opened on node `nd₁` and used later on
+`nd₂` = `nd₁` after any further history `ops₂`, it still answers for block `k` of the chain it was
+opened on, as long as that chain's blocks `0..k` are still there (`hsame`: nothing at or below `k`
+was reverted). A `HeadState` reader is a live view on both backends (it answers for the current
+head: `*_head_read_correct` applied to `nd₂`). -/
+theorem held_reader_stable (cfg : Cfg) (ops₁ ops₂ : List Op) (hwf : OpsWF (ops₁ ++ ops₂))
+    (k : Nat) (q : Query) (hq : q.ordinary) :
+    let nn₁ := runL (newBackend cfg) (Node.init (newBackend cfg)) ops₁
+    let nn₂ := runL (newBackend cfg) nn₁ ops₂
+    let nl₁ := runL legacyBackend (Node.init legacyBackend) ops₁
+    let nl₂ := runL legacyBackend nl₁ ops₂
+    (nn₂.chain.drop (nn₂.chain.length - 1 - k) = nn₁.chain.drop (nn₁.chain.length - 1 - k) →
+      (newBackend cfg).histRead nn₂.st k q = (absAt nn₁.chain k).read q) ∧
+    (nl₂.chain.drop (nl₂.chain.length - 1 - k) = nl₁.chain.drop (nl₁.chain.length - 1 - k) →
+      legacyBackend.histRead nl₂.st k q = (absAt nl₁.chain k).read q) := by
+  intro nn₁ nn₂ nl₁ nl₂
+  have hwf1 : OpsWF ops₁ := fun id d hm => hwf id d (List.mem_append.mpr (Or.inl hm))
+  have hwf2 : OpsWF ops₂ := fun id d hm => hwf id d (List.mem_append.mpr (Or.inr hm))
+  constructor
+  · intro hsame
+    have h1 := runL_invariant (newBackend cfg) (NInv cfg)
+      (fun ch s s' d hI hd hu => ninv_store cfg ch s s' d hI hd hu)
+      (fun d rest s s' hI hr => ninv_revert cfg d rest s s' hI hr)
+      ops₁ (Node.init (newBackend cfg)) (ninv_init cfg) hwf1
+    have h2 := runL_invariant (newBackend cfg) (NInv cfg)
+      (fun ch s s' d hI hd hu => ninv_store cfg ch s s' d hI hd hu)
+      (fun d rest s s' hI hr => ninv_revert cfg d rest s s' hI hr)
+      ops₂ nn₁ h1 hwf2
+    rw [← absAt_of_common nn₁.chain nn₂.chain k hsame]
+    exact ninv_histRead cfg nn₂.chain nn₂.st h2 k q hq
+  · intro hsame
+    have h1 := runL_invariant legacyBackend LInv
+      (fun ch s s' d hI hd hu => linv_store ch s s' d hI hd hu)
+      (fun d rest s s' hI hr => linv_revert d rest s s' hI hr)
+      ops₁ (Node.init legacyBackend) linv_init hwf1
+    have h2 := runL_invariant legacyBackend LInv
+      (fun ch s s' d hI hd hu => linv_store ch s s' d hI hd hu)
+      (fun d rest s s' hI hr => linv_revert d rest s s' hI hr)
+      ops₂ nl₁ h1 hwf2
+    rw [← absAt_of_common nl₁.chain nl₂.chain k hsame]
+    exact linv_histRead nl₂.chain nl₂.st h2 k q hq
+
 /-- Views by hash (any backend): the view of a stored block hash is the view of that block's
 number; a hash the node does not hold (never stored, or reverted) has no view; a number above the
 head has no view. With unique block hashes the hash of block `k` resolves to `k`
@@ -244,6 +316,29 @@ theorem new_system_asFound_counterexample :
     (run (newBackend Cfg.asFound) (Node.init (newBackend Cfg.asFound)) drainHistory).map
       (fun nd => (nd.read (newBackend Cfg.asFound) (.num 0) (.storage 1 2), (absAt nd.chain 0).stor 1 2)) =
       some (some .notfound, 5) := by decide
+
+/-- block 0: deploy 0x64; block 1: address 0x66 is in `deployed` (class 0x12c) AND in `replaced`
+(class 0x12f) — outside `Diff.WF`, but juno stores such a block -/
+def deployReplaceHistory : List Op :=
+  [.store 1 { Diff.empty with deployed := [(0x64, 0x12c)] },
+   .store 2 { Diff.empty with deployed := [(0x66, 0x12c)], replaced := [(0x66, 0x12f)] }]
+
+/-- DEFECT (core/state `writeHistory` writes replaced classes before deployed contracts, `Update`
+applies them the other way round): as found the view of block 1 answers the deployed class 0x12c
+while the head view — and the abstract state, the legacy backend, the state root — have 0x12f.
+With the two loops in `Update`'s order (`histOrderFix`) all agree. -/
+theorem new_deploy_and_replace_asFound_counterexample :
+    (run (newBackend Cfg.asFound) (Node.init (newBackend Cfg.asFound)) deployReplaceHistory).map
+      (fun nd => (nd.read (newBackend Cfg.asFound) (.num 1) (.classHash 0x66),
+                  nd.read (newBackend Cfg.asFound) .head (.classHash 0x66), (absOf nd.chain).cls 0x66)) =
+      some (some (.ok 0x12c), some (.ok 0x12f), 0x12f) ∧
+    (run (newBackend Cfg.repaired) (Node.init (newBackend Cfg.repaired)) deployReplaceHistory).map
+      (fun nd => (nd.read (newBackend Cfg.repaired) (.num 1) (.classHash 0x66),
+                  nd.read (newBackend Cfg.repaired) .head (.classHash 0x66))) =
+      some (some (.ok 0x12f), some (.ok 0x12f)) ∧
+    (run legacyBackend (Node.init legacyBackend) deployReplaceHistory).map
+      (fun nd => (nd.read legacyBackend (.num 1) (.classHash 0x66), nd.read legacyBackend .head (.classHash 0x66))) =
+      some (some (.ok 0x12f), some (.ok 0x12f)) := by decide
 
 /-! ### non-vacuity: the hypotheses are satisfiable by histories that exercise the encodings -/
 
